@@ -39,16 +39,21 @@ REG["C30"] = dict(
 )
 
 REG["C29"] = dict(
-    level_text='Proof over a pure model of Roller.Dial (configured ids, an arbitrary permutation standing for the shuffle, remembered id, per-attempt TCP and handshake outcomes): working id first, each id at most once, first accepted attempt returned and recorded, TCP error returned at once - for all inputs. Partial: the shuffle, UClient/SetSNI and data-race freedom are observed (loopback servers recognising fingerprints, race detector), not proved.',
+    level_text='Proof over a pure model of Roller.Dial (configured ids, an arbitrary permutation standing for the shuffle, remembered id, per-attempt TCP outcome, generated seeds, handshake timeout, starting time and the peer serving / refusing after any delay or staying silent towards each fingerprint): remembered id first, each id at most once, every attempt judged against its own full timeout, first attempt whose handshake succeeds returned and the CONNECTION\'s id (seed included) recorded so that the next Dial starts with the very fingerprint that worked, TCP error returned at once - for all inputs. Partial: the shuffle, UClient/SetSNI/seed generation and data-race freedom are observed (loopback servers recognising fingerprints, race detector), not proved.',
     runner="C29", corr=["Corr.C29Corr"], n=dict(quick=480, thorough=4000), race_suite="C29race",
-    rule="local TLS servers over loopback TCP that let only chosen fingerprints (recognised from the parsed ClientHello) "
-         "complete; Rollers over 2..5 of up to 16 distinguishable ClientHelloIDs (incl. seeded randomized), optional "
-         "remembered working id (possibly unconfigured), 3..5 Dials per scenario with the accept set changing, listeners that "
-         "stop accepting after k connections, a closed port. Distinct by (ids, working, accept set, observed trace); "
-         "non-trivial when at least two fingerprints were tried in the Dial.",
-    trusted_base=["ClientHello fingerprint recogniser in the runner (suites + extension types modulo GREASE)",
+    rule="local TLS servers over loopback TCP that, per fingerprint recognised from the parsed ClientHello, complete the handshake, "
+         "close, or (every 5th scenario, 400 ms handshake timeout) read the hello and stay silent; Rollers over 2..5 of ~30 ids: "
+         "14 fixed parrots, randomized ids with a pinned seed, and UNSEEDED randomized ids (the three shipped ones and five with "
+         "weights forcing extensions in/out, so that the family of a never-seen fingerprint is read off the wire and it is numbered "
+         "on the fly); optional remembered working id (possibly unconfigured, possibly black-holed), 3..5 Dials per scenario with "
+         "the server changing its mind, listeners that stop accepting after k connections, a closed port. Distinct by (ids, working, "
+         "observed trace with per-attempt server outcome); non-trivial when at least two fingerprints were tried in the Dial.",
+    trusted_base=["ClientHello fingerprint recogniser in the runner (suites in order + extension types modulo GREASE; family of an "
+                  "unseeded randomized hello from extensions forced by client name / weights 0 and 1)",
                   "Go crypto/x509 with SSL_CERT_FILE pointing at a throw-away CA"],
-    assumes=["configured HelloIDs are pairwise distinct (NoDup premise)", "the shuffle yields some permutation (premise; observed)"],
+    assumes=["configured HelloIDs are pairwise distinct (NoDup premise)", "the shuffle yields some permutation (premise; observed)",
+             "generated seeds do not collide with configured ones (premise of C29_trace_ok only)",
+             "a ClientHelloID that carries its Seed shows the same fingerprint on every connection (observed: the server recognises it)"],
 )
 
 # Properties added later live in lib/reg/Cxx.py, one file each, defining ENTRY = dict(...).
